@@ -10,6 +10,7 @@ package main
 
 import (
 	"context"
+	"crypto/tls"
 	"encoding/json"
 	"encoding/pem"
 	"flag"
@@ -441,25 +442,26 @@ type verifConnKey struct{}
 
 // verifReq is what the end-to-end server saw of one request.
 type verifReq struct {
-	Seq     string              `json:"seq"`
-	Attack  string              `json:"attack"`
-	Method  string              `json:"method"`
-	Path    string              `json:"path"`
-	Host    string              `json:"host"`
-	Header  map[string][]string `json:"header"`
-	BodyLen int                 `json:"body_len"`
-	Body    string              `json:"body"`
-	Chunked bool                `json:"chunked"`
-	Remote  string              `json:"remote"`
-	Proto   string              `json:"proto"`
-	TLS     bool                `json:"tls"`
-	ConnID  int64               `json:"conn_id"`
-	StartNs int64               `json:"start_ns"`
-	EndNs   int64               `json:"end_ns"`
+	Seq         string              `json:"seq"`
+	Attack      string              `json:"attack"`
+	Method      string              `json:"method"`
+	Path        string              `json:"path"`
+	Host        string              `json:"host"`
+	Header      map[string][]string `json:"header"`
+	BodyLen     int                 `json:"body_len"`
+	Body        string              `json:"body"`
+	Chunked     bool                `json:"chunked"`
+	Remote      string              `json:"remote"`
+	Proto       string              `json:"proto"`
+	TLS         bool                `json:"tls"`
+	ClientCerts int                 `json:"client_certs"`
+	ConnID      int64               `json:"conn_id"`
+	StartNs     int64               `json:"start_ns"`
+	EndNs       int64               `json:"end_ns"`
 }
 
 // verifE2E runs the real attack command (op.Args) against an in-process HTTP
-// server on the loopback interface (op.Server: "plain", "tls", "tls2" = TLS offering HTTP/2, "h2c" or "unix") whose
+// server on the loopback interface (op.Server: "plain", "tls", "tls2" = TLS offering HTTP/2, "mtls" = TLS demanding a client certificate, "h2c" or "unix") whose
 // behaviour is selected by the request path, and reports what the server saw.
 // op.Docs are files written into op.Dir first. In arguments and files {{URL}},
 // {{ADDR}}, {{PORT}}, {{DIR}}, {{CERT}}, {{SOCK}} and {{PROM}} are replaced.
@@ -500,6 +502,9 @@ func verifE2E(op *verifOp, res *verifOut) {
 		rec := verifReq{Seq: r.Header.Get("X-Vegeta-Seq"), Attack: r.Header.Get("X-Vegeta-Attack"), Method: r.Method, Path: r.URL.Path,
 			Host: r.Host, Header: r.Header, BodyLen: len(body), Chunked: len(r.TransferEncoding) > 0, Remote: r.RemoteAddr,
 			Proto: r.Proto, TLS: r.TLS != nil, StartNs: int64(start)}
+		if r.TLS != nil {
+			rec.ClientCerts = len(r.TLS.PeerCertificates)
+		}
 		rec.ConnID, _ = r.Context().Value(verifConnKey{}).(int64)
 		if len(body) <= 256 {
 			rec.Body = string(body)
@@ -558,6 +563,9 @@ func verifE2E(op *verifOp, res *verifOut) {
 		srv.StartTLS()
 	case "tls2":
 		srv.EnableHTTP2 = true
+		srv.StartTLS()
+	case "mtls": // TLS that insists on a client certificate (any: it is not verified)
+		srv.TLS = &tls.Config{ClientAuth: tls.RequireAnyClientCert}
 		srv.StartTLS()
 	case "h2c":
 		srv.Config.Handler = h2c.NewHandler(handler, &http2.Server{})
